@@ -14,6 +14,8 @@ def configs(tier):
         dict(suppliers=2, consumers=2, items=1, rounds=1),
         dict(suppliers=1, consumers=1, items=2, stop=True),
         dict(suppliers=1, consumers=2, items=1, stop=True, abandon=True),
+        # a bounded data queue behind the responsive wrapper: puts wait (and must keep waiting, or react to the stop)
+        dict(suppliers=1, consumers=1, items=2, stop=True, maxsize=1),
     ]
     if tier == 'thorough':
         cs += [
